@@ -694,8 +694,8 @@ Theorem grid_converse_pow2_proof fps k total mn P (N : list (Z * Z * Z)) :
   forall p a b,
     In (p, a, b) (decode_spans (active_roll c (map (grid_note fps mn) N)) None None) <-> In (p, a, b) N.
 Proof.
-  intros Ffps Rfps Hk c Hrows HN Hsep. apply grid_converse_proof; [lia| |assumption].
+  intros Ffps Rfps Hk c Hrows HN Hsep. unfold c in *. clear c. apply grid_converse_proof; [lia| |assumption].
   intros p a b Hin. destruct (HN p a b Hin) as (Hp & Hab & Hb).
   split; [assumption|]. split; [assumption|]. split; [assumption|].
-  unfold c in *. split; apply (frame_exact_pow2 fps k Ffps Rfps Hk); lia.
+  split; apply (frame_exact_pow2 fps k Ffps Rfps Hk); lia.
 Qed.
